@@ -175,10 +175,10 @@ type nopIndexStore struct{ stored int }
 func (s *nopIndexStore) GetIndexReader(string) (io.ReadCloser, error) {
 	return nil, os.ErrNotExist
 }
-func (s *nopIndexStore) GetIndex(string) (desync.Index, error)  { return desync.Index{}, os.ErrNotExist }
-func (s *nopIndexStore) Close() error                           { return nil }
-func (s *nopIndexStore) String() string                         { return "c19-nop" }
-func (s *nopIndexStore) StoreIndex(string, desync.Index) error  { s.stored++; return nil }
+func (s *nopIndexStore) GetIndex(string) (desync.Index, error) { return desync.Index{}, os.ErrNotExist }
+func (s *nopIndexStore) Close() error                          { return nil }
+func (s *nopIndexStore) String() string                        { return "c19-nop" }
+func (s *nopIndexStore) StoreIndex(string, desync.Index) error { s.stored++; return nil }
 
 // oneStore serves exactly one chunk.
 type oneStore struct {
